@@ -12,10 +12,16 @@ def run_driver(exe, cmdfile, timeout, env=None):
     if env:
         e.update(env)
     try:
-        p = subprocess.run([exe, cmdfile], env=e, timeout=timeout, stdout=subprocess.PIPE, stderr=subprocess.PIPE)
+        p = subprocess.run([exe, cmdfile], env=e, timeout=timeout, stdout=subprocess.PIPE, stderr=subprocess.PIPE,
+                           preexec_fn=_nocore)
         return p.returncode, p.stdout.decode("utf-8", "replace").splitlines(), p.stderr.decode("utf-8", "replace")
     except subprocess.TimeoutExpired as ex:
         return 124, (ex.stdout or b"").decode("utf-8", "replace").splitlines(), (ex.stderr or b"").decode("utf-8", "replace")
+
+
+def _nocore():
+    import resource
+    resource.setrlimit(resource.RLIMIT_CORE, (0, 0))
 
 
 def observer_sig(stderr):
@@ -24,7 +30,10 @@ def observer_sig(stderr):
     m = re.search(r"ERROR: AddressSanitizer: (\S+)", stderr)
     if m:
         fr = re.findall(r"#\d+ 0x[0-9a-f]+ in (\w+)", stderr)
-        fr = [f for f in fr if not f.startswith("__") and f not in ("memcpy", "memmove", "memset", "malloc", "free", "calloc")]
+        fr = [f for f in fr if not f.startswith("__") and f not in ("memcpy", "memmove", "memset", "malloc", "free", "calloc",
+                                                                      "nni_plat_abort", "nni_panic", "abort", "raise")]
+        if m.group(1) == "ABRT":
+            return "panic:%s" % (fr[0] if fr else "?")
         return "asan:%s:%s" % (m.group(1), fr[0] if fr else "?")
     m = re.search(r"runtime error: (.*)", stderr)
     if m:
